@@ -116,8 +116,13 @@ pub fn run_case(ctx: &mut Ctx, fam: &str, k: u64, r: &mut Rng) {
     let mut di = batch.clone();
     di.extend(&[d, h, w]);
     let df = vec![cnt, d, fr, fc];
-    let mut vi = rand_ints(r, numel(&di), -9, 9);
-    let mut vf = rand_ints(r, numel(&df), -5, 5);
+    // integers, or (half of the non-grid cases) multiples of 1/4: exact in any summation order, but not integral
+    let frac = fam != "grid" && r.chance(1, 2);
+    let mut vi: Vec<f64> = if frac { (0..numel(&di)).map(|_| 0.25 * r.int(-9, 9)).collect() } else { rand_ints(r, numel(&di), -9, 9) };
+    let mut vf: Vec<f64> = if frac { (0..numel(&df)).map(|_| 0.25 * r.int(-5, 5)).collect() } else { rand_ints(r, numel(&df), -5, 5) };
+    if frac {
+        ctx.count("cases_with_fractional_data", 1);
+    }
     if fam == "nonfinite" {
         // zeros next to infinities / NaN: the IEEE sum of products must still be produced (0 * inf = NaN)
         for v in [&mut vi, &mut vf] {
